@@ -980,36 +980,74 @@ func (e *gluesigEnv) execRun(k int, run gluesigRun) (apksField, opsField string,
 		outs = append(outs, one(err, answers...))
 		return strings.Join(enc, "|"), "0!" + strings.Join(resns, "&"), outs
 	case "lock":
-		out := filepath.Join(work, "apko.lock.json")
-		err := verifapi.LockCmd(ctx, out, archs, opts)
-		var answers, resns []string
-		for j := range run.Archs {
-			resns = append(resns, fmt.Sprintf("%d>", j))
-		}
-		if err == nil {
-			var lock struct {
-				Contents struct {
-					Packages []struct {
-						Name, Version, Architecture string
-					} `json:"packages"`
-				} `json:"contents"`
-			}
-			b, rerr := os.ReadFile(out)
-			gluesigMust(rerr)
-			gluesigMust(json.Unmarshal(b, &lock))
-			for j, a := range run.Archs {
-				var recs []string
-				for _, p := range lock.Contents.Packages {
-					if p.Architecture == a {
-						recs = append(recs, isPkgRec(p.Name, p.Version, nil, nil))
+		// LockCmd resolves one architecture after the other and returns at the first error of any kind. The model only
+		// knows index-loading errors, so one LockCmd call covers several architectures only when nothing else can go
+		// wrong before the last one (online, every index of the family served: the views always resolve); otherwise
+		// one call per architecture
+		whole := !run.Offline
+		for _, rp := range run.Repos {
+			for _, a := range run.Archs {
+				found := false
+				for _, id := range run.Serve {
+					if e.c.Revs[id].Repo == rp && e.c.Revs[id].Arch == a {
+						found = true
 					}
 				}
-				sort.Strings(recs)
-				answers = append(answers, fmt.Sprintf("%d=n%s", j, strings.Join(recs, ",")))
+				whole = whole && found
 			}
 		}
-		outs = append(outs, one(err, answers...))
-		return strings.Join(enc, "|"), "1!" + strings.Join(resns, "&"), outs
+		lockOnce := func(tag string, js []int) (gluesigOpOut, string) {
+			out := filepath.Join(work, "apko.lock."+tag+".json")
+			var as []types.Architecture
+			var resns []string
+			for _, j := range js {
+				as = append(as, archs[j])
+				resns = append(resns, fmt.Sprintf("%d>", j))
+			}
+			err := verifapi.LockCmd(ctx, out, as, opts)
+			var answers []string
+			if err == nil {
+				var lock struct {
+					Contents struct {
+						Packages []struct {
+							Name, Version, Architecture string
+						} `json:"packages"`
+					} `json:"contents"`
+				}
+				b, rerr := os.ReadFile(out)
+				gluesigMust(rerr)
+				gluesigMust(json.Unmarshal(b, &lock))
+				for k, j := range js {
+					var recs []string
+					for _, p := range lock.Contents.Packages {
+						if p.Architecture == run.Archs[j] {
+							recs = append(recs, isPkgRec(p.Name, p.Version, nil, nil))
+						}
+					}
+					sort.Strings(recs)
+					answers = append(answers, fmt.Sprintf("%d=n%s", k, strings.Join(recs, ",")))
+				}
+			}
+			gluesigMust(os.MkdirAll(filepath.Join(work, "tmp"), 0o755)) // LockCmd removes the temp dir it was given
+			return one(err, answers...), "1!" + strings.Join(resns, "&")
+		}
+		var ops []string
+		if whole {
+			var js []int
+			for j := range run.Archs {
+				js = append(js, j)
+			}
+			o, op := lockOnce("all", js)
+			outs = append(outs, o)
+			ops = append(ops, op)
+		} else {
+			for j := range run.Archs {
+				o, op := lockOnce(fmt.Sprint(j), []int{j})
+				outs = append(outs, o)
+				ops = append(ops, op)
+			}
+		}
+		return strings.Join(enc, "|"), strings.Join(ops, "|"), outs
 	case "build":
 		outDir := filepath.Join(work, "out")
 		gluesigMust(os.MkdirAll(outDir, 0o755))
